@@ -397,8 +397,20 @@ def check_by_order(case, ctx):
                 lambda: "%s: keys %r, orders present %r" % (what, sorted(allm.keys()), sorted(present)),
                 key="all_orders")
         for d, M in allm.items():
-            same("%s[%d] vs incidence_matrix_by_order(order=%d)" % (what, d, d),
-                 got[(d, keep)], dense(M, what))
+            # no mapping comes with these matrices: rows and columns are only known up to
+            # order, so the comparison with incidence_matrix_by_order (already verified entry
+            # by entry through its mapping) uses order-independent invariants
+            A, B_ = got[(d, keep)], dense(M, what)
+            w_ = "%s[%d] vs incidence_matrix_by_order(order=%d)" % (what, d, d)
+            require(tuple(A.shape) == tuple(B_.shape),
+                    lambda: "%s: shape %r vs %r" % (w_, B_.shape, A.shape), key="all_orders")
+            for ax, nm in ((0, "column"), (1, "row")):
+                sa, sb = sorted(A.sum(axis=ax).tolist()), sorted(B_.sum(axis=ax).tolist())
+                require(sa == sb, lambda: "%s: %s sums %r vs %r" % (w_, nm, sb, sa),
+                        key="all_orders")
+            require(int((A != 0).sum()) == int((B_ != 0).sum()),
+                    lambda: "%s: %d vs %d non-zero entries"
+                    % (w_, int((B_ != 0).sum()), int((A != 0).sum())), key="all_orders")
 
 
 # --------------------------------------------------------------------------
